@@ -245,7 +245,7 @@ impl NtpDuration {
     /// Interval of same length, but positive direction
     pub const fn abs(self) -> Self {
         Self {
-            duration: self.duration.abs(),
+            duration: self.duration.saturating_abs(),
         }
     }
 
@@ -391,7 +391,7 @@ impl Neg for NtpDuration {
 
     fn neg(self) -> Self::Output {
         NtpDuration {
-            duration: -self.duration,
+            duration: self.duration.saturating_neg(),
         }
     }
 }
